@@ -14,9 +14,11 @@ trait Identity: Clone + Eq + Sized {
     spec fn renew_spec(&self) -> Option<Self>;
 
     // A-renew: a renewed identity keeps the address (it exists to win the conflict for that address)
+    proof fn lemma_renew_addr(&self)
+        ensures self.renew_spec().is_some() ==> self.renew_spec().unwrap().addr_of() == self.addr_of();
+
     fn renew(&self) -> (r: Option<Self>)
-        ensures r == self.renew_spec(),
-                r.is_some() ==> r.unwrap().addr_of() == self.addr_of();
+        ensures r == self.renew_spec();
 
     fn addr(&self) -> (r: Self::Addr)
         ensures r == self.addr_of();
